@@ -4,7 +4,15 @@ From Coq Require Import List NArith.
 From Goit Require Import Bytes Obj Tree Index IndexFacts TreeFacts DiffFacts.
 From Goit Require Import Commit World Repo Inv SnapshotFacts.
 From Goit Require Import Config CommitFacts BranchFacts ExactFacts CommitCmdFacts GateFacts.
+From Goit Require Import Bridge.
 Import ListNotations.
+
+(* T0 (tie to the source): every regexp literal of the current Go source denotes
+   the same language, with the same anchoring, as the pattern of the model — proved
+   by running the verified equivalence checker on SrcRegex.v, which is regenerated
+   from /repo on every run (see Bridge.v) *)
+Theorem C07_source_patterns_are_the_models : source_patterns_agree.
+Proof. exact source_patterns. Qed.
 
 (* T1: the comparison of the staging area with the HEAD tree reports exactly
    the set differences, each with the right kind, and nothing else.  [its] is
@@ -144,3 +152,4 @@ Print Assumptions C07_first_commit_succeeds.
 Print Assumptions C07_commit_succeeds_iff.
 Print Assumptions C07_status_staged_section_exact.
 Print Assumptions C07_status_after_commit_clean.
+Print Assumptions C07_source_patterns_are_the_models.
